@@ -255,7 +255,7 @@ theorem readTriple_ssmFiles {a : Arrays} (F : ArrFacts a) : readTriple (ssmFiles
     have := F.last v hv
     simpa [eqMap_zero_iff] using this
   unfold readTriple
-  simp only [hst, hwc, heq0, heq]
+  rw [hst, hwc, heq0]
   have h1 : (a.2.1.map wcMap).any (fun v => v == 0 || decide (v < -1)) = false := by
     rw [List.any_eq_false]
     intro x hx
@@ -268,16 +268,17 @@ theorem readTriple_ssmFiles {a : Arrays} (F : ArrFacts a) : readTriple (ssmFiles
     obtain ⟨o, _, rfl⟩ := List.mem_map.1 hx
     have := eqMap_nonneg o
     simp; omega
-  simp only [h1, h2, Bool.false_eq_true, if_false, List.length_map, F.len_st, F.len_wc, Nat.max_self]
+  have hm : max (a.1.map eqMap).length (a.2.2.map stMap).length = a.1.length := by
+    simp [F.len_st]
   have h3 : (a.2.1.map wcMap).drop a.1.length = [] := by
     apply List.drop_eq_nil_iff.2; simp [F.len_wc]
   have h4 : (a.2.1.map wcMap).take a.1.length = a.2.1.map wcMap := by
     apply List.take_of_length_le; simp [F.len_wc]
-  have hpos : decide (a.1.length > 0) = true := by simp; omega
-  simp only [h3, List.any_nil, Bool.and_false, hpos, if_true, h4, List.length_map, F.len_wc, Nat.max_self,
-    bne_self_eq_false, Bool.or_false]
+  have hgt : a.1.length > 0 := hn
   have hz : (a.1.length == 0) = false := by simp; omega
-  simp only [hz, Bool.false_eq_true, if_false, Option.some.injEq]
+  unfold reconcile
+  simp only [h1, heq, h2, hm, h3, h4, hgt, if_true, List.any_nil, Bool.and_false, Bool.false_eq_true, if_false,
+    List.length_map, F.len_wc, F.len_st, Nat.max_self, hz, bne_self_eq_false, Bool.or_false, Option.some.injEq]
   -- the three lists, position by position
   have blank_iff : ∀ i, i < a.1.length →
       ((!(Ssm.isCode ((a.2.2.map stMap).getD i ' ')) || (a.1.map eqMap).getD i 0 == 0) = true ↔ a.1[i]? = some none) := by
